@@ -24,7 +24,8 @@ CLAIM = dict(
          "differential execution (extracted model vs werkzeug) of to_url / unquote / to_python, MapAdapter.build and build-then-match.",
     note="Trusted: as C03; float(str(x)) = x and the shape of str(x) on positional floats are a Section contract validated by the harness; "
          "uuid values are carried as their 32 hex digits; query-string extras (werkzeug.urls._urlencode / parse_qsl) and maps built through "
-         "Submount/Subdomain factories are exercised by the harness only (the model sees the flattened rules); host_matching builds are not covered.",
+         "Submount/Subdomain factories are exercised by the harness only (the model sees the flattened rules); host_matching builds are modelled "
+         "and compared (MapAdapter._partial_build's preference for the bound host), the map-level theorems cover host parts through dom_built.",
     design="6/C04")
 
 FIRST = ["r0", "r1", "r2", "r3", "r4", "r5", "users", "all", "pages", "x.y", "é", "a b"]
@@ -132,7 +133,31 @@ def gen_map_c04(rng) -> MapSpec:
             if dv is not None:
                 segs = (Seg(lit=firsts[n]),) + tuple(s for k, s in enumerate(b.segs[1:], 1) if k != j)
                 rules.append(replace(b, idx=len(rules), segs=segs, defaults=((v.name, dv),)))
-    return MapSpec(rules=tuple(rules), strict=rng.random() < 0.8, merge=rng.random() < 0.8, redirect_defaults=rng.random() < 0.7)
+    ms = MapSpec(rules=tuple(rules), strict=rng.random() < 0.8, merge=rng.random() < 0.8, redirect_defaults=rng.random() < 0.7)
+    if rng.random() < 0.18:
+        # host_matching: every rule carries a host pattern (literal host, or <sub>.example.com)
+        hosts = [Seg(lit="example.com"), Seg(lit="example.com"), Seg(lit="api.example.com"),
+                 Seg(conv=Conv("s"), name="sub", post=".example.com")]
+        new_rules, by_ep = [], {}
+        for r in ms.rules:
+            h = by_ep.get(r.endpoint) or rng.choice(hosts)
+            if h.lit is None and any(s_.lit is None and s_.name == "sub" for s_ in r.segs):
+                h = hosts[0]
+            by_ep.setdefault(r.endpoint, h)
+            new_rules.append(replace(r, dom=h))
+        # the same endpoint and arguments under another first literal on another literal host:
+        # _partial_build prefers the rule whose host is the bound server name
+        with_defaults = {r.endpoint for r in new_rules if r.defaults}
+        cand = [r for r in new_rules if r.dom.lit is not None and r.endpoint not in with_defaults]
+        if cand and rng.random() < 0.6:
+            r = rng.choice(cand)
+            other = "api.example.com" if r.dom.lit == "example.com" else "example.com"
+            twin = replace(r, idx=len(new_rules), segs=(Seg(lit=firsts[n + 1]),) + r.segs[1:], dom=Seg(lit=other))
+            new_rules.insert(rng.randrange(len(new_rules) + 1), twin)
+            new_rules = [replace(x, idx=i) for i, x in enumerate(new_rules)]
+        # rules of one endpoint (the defaults sibling) may live on different hosts: _partial_build prefers the bound host
+        ms = replace(ms, rules=tuple(new_rules), host_matching=True)
+    return ms
 
 
 def make_with_factories(ms: MapSpec):
@@ -217,7 +242,7 @@ def deliver(ad: Adapter, ms: MapSpec, url: str):
     return nxt, unquote(sp.path[len(prefix):]), sp.query
 
 
-def deliver_environ(m, by_obj, ad: Adapter, url: str) -> str:
+def deliver_environ(m, by_obj, ad: Adapter, url: str, host_matching: bool = False) -> str:
     """route the built URL as a WSGI application would: create_environ(target, base_url) then bind_to_environ(environ).match()"""
     from werkzeug.test import create_environ
     sp = urlsplit(url)
@@ -229,7 +254,7 @@ def deliver_environ(m, by_obj, ad: Adapter, url: str) -> str:
     rel = target[len(script):]
     try:
         env = create_environ(rel, base_url=f"{ad.scheme}://{host}{script}/")
-        a = m.bind_to_environ(env, server_name=ad.server)
+        a = m.bind_to_environ(env, server_name=None if host_matching else ad.server)
     except Exception as e:  # noqa: BLE001
         return "EXN " + type(e).__name__
     return c03.observe(a, by_obj, None, "GET")
@@ -342,7 +367,7 @@ def run(chk: Check) -> None:
     for mi in range(n_maps):
         ms = gen_map_c04(rng)
         try:
-            if rng.random() < 0.3:
+            if rng.random() < 0.3 and not ms.host_matching:
                 m, by_obj = make_with_factories(ms)
                 chk.count("map:factories")
             else:
@@ -354,7 +379,11 @@ def run(chk: Check) -> None:
         subs = [None, ""]
         if any(r.dom.text() for r in ms.rules):
             subs = [None, "api", "de"]
-        ad = Adapter(scheme=rng.choice(["http", "https"]), server="example.com", script=script, subdomain=rng.choice(subs))
+        if ms.host_matching:
+            subs = [None]
+            chk.count("map:host_matching")
+        ad = Adapter(scheme=rng.choice(["http", "https"]), server=rng.choice(["example.com", "api.example.com"]) if ms.host_matching else "example.com",
+                     script=script, subdomain=rng.choice(subs))
         a = ad.bind(m)
         for _ in range(8):
             r = rng.choice(ms.rules)
@@ -421,7 +450,7 @@ def run(chk: Check) -> None:
             # the same URL delivered the way a server delivers it: a WSGI environ (werkzeug.test.create_environ, as the
             # test client does) routed with Map.bind_to_environ, PATH_INFO percent-decoded by the environ builder
             if "\n" not in url:
-                eobs = deliver_environ(m, by_obj, ad, url)
+                eobs = deliver_environ(m, by_obj, ad, url, ms.host_matching)
                 chk.count("deliver:environ")
                 if eobs != mobs:
                     chk.fail("build-then-match-environ",
